@@ -400,6 +400,31 @@ type InvTagDom struct {
 	InvTagE2
 }
 
+// ambiguity decided over the whole embedding tree: AmbE1 drops its two fields tagged "B", which still make
+// the B promoted from AmbE2 ambiguous in AmbT; in AmbU the X that is ambiguous at depth 2 hides the one at depth 3
+type AmbE1 struct {
+	X int `json:"B"`
+	Y int `json:"B"`
+}
+type AmbE2 struct{ B int }
+type AmbT struct {
+	AmbE1
+	AmbE2
+}
+type AmbC struct{ X int }
+type AmbD struct{ X int }
+type AmbA struct {
+	AmbC
+	AmbD
+}
+type AmbF struct{ X int }
+type AmbE struct{ AmbF }
+type AmbB struct{ AmbE }
+type AmbU struct {
+	AmbA
+	AmbB
+}
+
 type MutRoot struct {
 	A MutA
 	B MutB
